@@ -367,7 +367,7 @@ func gen(t *rapid.T) Case {
 	c.NoDest = c.Layout == "assert" && rapid.IntRange(0, 2).Draw(t, "nodest") == 0
 	c.AllowIDP = rapid.IntRange(0, 3).Draw(t, "allowidp") == 0
 	if rapid.IntRange(0, 2).Draw(t, "othertrust") == 0 {
-		c.Trust = rapid.SampledFrom(spkit.Trusts).Draw(t, "trust")
+		c.Trust = rapid.SampledFrom(spkit.TrustsIDP).Draw(t, "trust")
 	}
 	c.Warm = rapid.IntRange(0, 3).Draw(t, "warm") == 0
 	if rapid.IntRange(0, 2).Draw(t, "noise?") == 0 {
